@@ -1210,7 +1210,7 @@ func main() {
 	rng := lib.NewRng(f.Seed)
 	out := lib.NewOut("C11", f)
 	out.Imports = "From Verif Require Import Base.Lin Model.PlayerRegistry.\n"
-	out.Rule = "sequential histories: 24-40 calls (canRegister/register/unregister/Disconnect/login via authSessionHandler.Activated/lookups) over a pool of 3-7 player objects sharing 1-3 base names in random case spellings and 1-3 UUIDs, offline and online, kick-existing on and off, a full lookup snapshot after every mutating call; concurrent histories: 16 goroutines x 3-6 barrier rounds of atomic registry calls, half of them registration-burst hunts (up to 1500 rounds per history, 10x in thorough, of 16 registerConnection calls lined up by a spin barrier for players colliding on one lower-case name in case variants and/or on 2-3 UUIDs, then lookups; the first round with two winners for one name/UUID or a wrong count — else the last round — is the history judged in Coq), linearization searched in Go and validated in Coq; races: 2 logins (same name/UUID or not) started at once through Activated, optionally against a pre-registered player, outcome must be produced by some schedule of the model's login threads; kick-existing: 3-4 sessions of one UUID, half with the interleaving forced from inside the kicked session's DisconnectEvent (a further login registers after the victim's teardown and before the kicker re-locks; exact event log), half free-running, judged on the ordering clause over the log and on one-live-session-per-UUID at quiescence. distinct = distinct Coq term; non-trivial = a call was rejected, a player was replaced/kicked, a DisconnectEvent fired, or calls overlapped on the same name or UUID"
+	out.Rule = "sequential histories: 24-40 calls (canRegister/register/unregister/Disconnect/login via authSessionHandler.Activated/lookups) over a pool of 3-7 player objects sharing 1-3 base names in random case spellings and 1-3 UUIDs, offline and online, kick-existing on and off, a full lookup snapshot after every mutating call; concurrent histories: 16 goroutines x 3-6 barrier rounds of atomic registry calls, half of them registration-burst hunts (up to 1500 rounds per history for the first 20 hunts of a run and 200 for the further hunts of the thorough tier, of 16 registerConnection calls lined up by a spin barrier for players colliding on one lower-case name in case variants and/or on 2-3 UUIDs, then lookups; the first round with two winners for one name/UUID or a wrong count — else the last round — is the history judged in Coq), linearization searched in Go and validated in Coq; races: 2 logins (same name/UUID or not) started at once through Activated, optionally against a pre-registered player, outcome must be produced by some schedule of the model's login threads; kick-existing: 3-4 sessions of one UUID, half with the interleaving forced from inside the kicked session's DisconnectEvent (a further login registers after the victim's teardown and before the kicker re-locks; exact event log), half free-running, judged on the ordering clause over the log and on one-live-session-per-UUID at quiescence. distinct = distinct Coq term; non-trivial = a call was rejected, a player was replaced/kicked, a DisconnectEvent fired, or calls overlapped on the same name or UUID"
 
 	var seqJobs, linJobs, raceJobs, kickJobs []job
 	modes := [][2]bool{{false, false}, {true, false}, {true, true}, {false, true}}
@@ -1298,7 +1298,13 @@ func main() {
 			serial: burst,
 			run: func() {
 				if burst {
-					h, burstRound, hung = runBurstHunt(online, pool, burstLookups, f.Count(1500))
+					// thorough runs more hunts, not longer ones: the thorough tier is built with -race, where a
+					// 16-goroutine spin barrier costs an order of magnitude more per round
+					huntRounds := 1500
+					if i >= 40 {
+						huntRounds = 200
+					}
+					h, burstRound, hung = runBurstHunt(online, pool, burstLookups, huntRounds)
 				} else {
 					h, hung = runLin(online, pool, rounds)
 				}
